@@ -116,6 +116,7 @@ type dsWorld struct {
 	evInFlight      int // notification sends released, not yet received by the distributor
 	idleTTL         time.Duration
 	slowHook        bool
+	atHead          bool
 	hooksAtClose    int
 	storeOpsAtClose int
 }
@@ -267,6 +268,12 @@ func runDsync(r *simkit.Run, c Cfg, mode dsMode) {
 	sopts := []dagsync.Option{dagsync.RecvAnnounce(""), dagsync.SegmentDepthLimit(seg), dagsync.IdleHandlerTTL(idle)}
 	if d.limit > 0 {
 		sopts = append(sopts, dagsync.MaxAsyncConcurrency(d.limit))
+	}
+	if mode.directed && tp.Chance(1, 3, "prelude.atHead") {
+		// the prelude holds an explicit sync at its head query for longer
+		// than the idle-handler TTL: the request time limit must be longer
+		d.atHead = true
+		sopts = append(sopts, dagsync.HttpTimeout(10*time.Minute))
 	}
 	d.sub = w.NewSubscriber(sopts...)
 	d.sub.ParkHooks = true
@@ -657,17 +664,38 @@ func (d *dsWorld) prelude(custom func(p *simkit.Parked) *simkit.Action, inv func
 	if len(st) == 0 {
 		return
 	}
+	// where the first sync is held: inside its block hook, or (an explicit
+	// sync) while its head query is unanswered, i.e. after it has obtained
+	// the publisher's handler and before it holds any of the handler's locks
+	atHead := d.atHead
+	if atHead {
+		var exps []*simkit.Parked
+		for _, p := range st {
+			if strings.HasPrefix(p.Who, "exp") {
+				exps = append(exps, p)
+			}
+		}
+		if len(exps) == 0 {
+			atHead = false
+		} else {
+			st = exps
+		}
+	}
 	first := st[tp.Choose(len(st), "prelude.first")]
 	r.Logf("~sched", "prelude: start %s", first.Who)
 	r.Release(first, nil)
 	// drive only library and network actions until a hook call of P1 parks
-	held := false
+	held, waited := false, 0
 	for i := 0; i < 300 && !held; i++ {
 		r.Quiesce()
 		inv()
 		var acts []simkit.Action
 		for _, p := range r.Enabled() {
-			if p.Site == "hook.call" && strings.HasPrefix(p.Who, "P1 ") {
+			if !atHead && p.Site == "hook.call" && strings.HasPrefix(p.Who, "P1 ") {
+				held = true
+				break
+			}
+			if atHead && p.Site == "net.req" && strings.HasPrefix(p.Who, "P1 ") && strings.HasSuffix(p.Who, "/head") {
 				held = true
 				break
 			}
@@ -683,16 +711,29 @@ func (d *dsWorld) prelude(custom func(p *simkit.Parked) *simkit.Action, inv func
 			}
 			acts = append(acts, simkit.Action{Name: "release " + p.Site + "|" + p.Who, Weight: 1, Do: func() { r.Release(p, nil) }})
 		}
-		if held || len(acts) == 0 {
+		if held {
 			break
+		}
+		if len(acts) == 0 {
+			// only delayed responses are outstanding: let time pass
+			if waited++; waited > 40 {
+				break
+			}
+			r.Advance(time.Second + jitter(tp))
+			continue
 		}
 		r.ChooseAction(acts, "prelude")
 	}
 	if !held {
+		r.Probe("prelude-not-held")
 		return
 	}
-	r.Probe("prelude-sync-held-in-hook")
-	r.Logf("~sched", "prelude: slow hook, clock +%v", 2*d.idleTTL+time.Second)
+	if atHead {
+		r.Probe("prelude-sync-held-at-head-query")
+	} else {
+		r.Probe("prelude-sync-held-in-hook")
+	}
+	r.Logf("~sched", "prelude: slow %s, clock +%v", map[bool]string{true: "head query", false: "hook"}[atHead], 2*d.idleTTL+time.Second)
 	r.Advance(2*d.idleTTL + time.Second + jitter(tp))
 	r.Quiesce()
 	inv()
